@@ -17,7 +17,7 @@ from concurrent.futures import ThreadPoolExecutor
 import vlib
 
 PROP_FILE = "Props/Properties_C12.v"
-WRAPS = ("read", "write", "recv", "select", "close", "open", "free",
+WRAPS = ("read", "write", "recv", "select", "close", "open", "free", "accept",
          "pthread_mutex_lock", "pthread_mutex_unlock", "pthread_mutex_destroy")
 ASAN_ENV = {"ASAN_OPTIONS": "detect_leaks=1:abort_on_error=0:allocator_may_return_null=1:print_suppressions=0"}
 EXISTING = b"C:/proc/self/exe"
@@ -77,36 +77,16 @@ def handshake(k, minor=8, auth=0, shared=1, authresp=1):
     return L
 
 
-FIX_FLAGS = [0, 0, 0, 0]     # set by probe(): which of the four known defects the implementation under test does NOT have
-
-
 def cfg(w=8, h=8, auth=0, always=0, never=0, dontdisc=0, xvp=0, ft=0):
-    return "config %d %d %d %d %d %d %d %d %d %d %d %d" % ((w, h, auth, always, never, dontdisc, xvp, ft) + tuple(FIX_FLAGS))
+    return "config %d %d %d %d %d %d %d %d" % (w, h, auth, always, never, dontdisc, xvp, ft)
 
 
-PROBES = [  # (switch index, witness script, defect that shows when the switch must stay 0)
-    (0, ["case 0 probe:wlock", "config 8 8 0 0 0 0 0 0", "accept a", "appclose 0", "appxvp 0", "pe", "end"], "teardown_deadlock"),
-    (1, ["case 0 probe:ftfd", "config 8 8 0 0 0 0 0 1", "accept a"] + [], "filetransfer_fd_leak"),
-    (2, ["case 0 probe:iter", "config 8 8 0 0 0 0 0 0", "accept a", "appclose 0", "shutdown", "cleanup", "end"], "closed_client_skipped_at_shutdown"),
-    (3, ["case 0 probe:cut8", "config 8 8 0 0 0 0 0 0", "accept a", "cuttext8", "peerclose 0", "pe", "end"], "teardown_deadlock"),
-]
-
-
-def probe(cexe):
-    """run the four witness scripts on the implementation: a known defect that does not show any more
-    (e.g. a candidate fix is applied) switches the model to the repaired control flow for that point"""
-    PROBES[1][1][3:] = handshake(0) + ["in 0 " + hx(m_ft(3, 0, 0, EXISTING)), "pe", "peerclose 0", "pe", "end"]
-    res, _, _ = run_chunks(cexe, [p[1] for p in PROBES], env=ASAN_ENV, workers=1)
-    for (i, script, defect), r in zip(PROBES, res):
-        il = [l for l in r[1] if not l.startswith("#")]
-        ex = [l for l in r[1] if l.startswith("#")]
-        fails = oracle_case(script, il, ex)
-        FIX_FLAGS[i] = 0 if any(f.get("defect") == defect for (_, f) in fails) else 1
-    return list(FIX_FLAGS)
+def m_scale(f, palm=False):
+    return bytes([15 if palm else 8, f, 0, 0])
 
 
 # reference sessions in which connection 0 is a witness: nothing another connection does may change its stream
-WITNESS_REFS = ("shared", "auth", "big", "filetransfer", "truncated")
+WITNESS_REFS = ("shared", "auth", "big", "filetransfer", "truncated", "scaled", "listen")
 
 
 # ---------------------------------------------------------------- reference sessions (fault sweep)
@@ -171,6 +151,25 @@ def ref_sessions():
         "accept a"] + handshake(7) + ["in 7 " + hx([99]), "pe", "in 0 01", "pe", "in 0 " + hx(m_fur(0, w, h)), "pe",
         "accept a 58595a5a21", "accept a closed", "accept a 52464220", "end"]
     R["truncated"] = L
+    # 7. scaled clients: both message variants, equal / different factors, scale 1, impossible factor,
+    #    teardown by peer close, write failure, application close, refusal, shutdown
+    fs = lambda k, d: "in %d %s" % (k, hx(m_fur(0, d, d)))
+    L = [cfg(w, h), "accept a"] + handshake(0) + ["in 0 " + hx(m_fur(0, w, h)), "pe",
+        "accept a"] + handshake(1) + ["in 1 " + hx(m_scale(2)), "pe", fs(1, 4), "pe",
+        "accept a"] + handshake(2) + ["in 2 " + hx(m_scale(2, palm=True)), "pe", "in 2 " + hx(m_setenc([ENC_ZLIB])), "pe", fs(2, 4), "pe",
+        "accept a"] + handshake(3) + ["in 3 " + hx(m_scale(4)), "pe", fs(3, 2), "pe", "in 3 " + hx(m_scale(2)), "pe",
+        "accept a"] + handshake(4) + ["in 4 " + hx(m_scale(9)), "pe", "in 4 " + hx(m_scale(1)), "pe", "in 4 " + hx(m_scale(8)), "pe", fs(4, 1), "pe",
+        "mark", fs(1, 4), fs(3, 4), "pe", "bell",
+        "peerclose 1", "pe", "appclose 2", "pe", "in 3 " + hx(m_scale(0)), "pe", "mark", "in 0 " + hx(m_fur(1, w, h)), "pe",
+        "accept a"] + handshake(5) + ["in 5 " + hx(m_scale(4)), "pe", "shutdown", "cleanup", "end"]
+    R["scaled"] = L
+    # 8. connections arriving through the listening socket: accepted, held, refused, peer already
+    #    gone, garbage instead of a protocol version; several waiting at once
+    L = [cfg(w, h), "laccept a", "pe"] + handshake(0) + ["in 0 " + hx(m_fur(0, w, h)), "pe",
+        "laccept r", "pe", "laccept h", "laccept a closed", "laccept a 58595a5a21", "pe", "pe", "pe", "start 2"] + handshake(2) + [
+        "laccept r", "laccept a", "in 0 " + hx(m_fur(1, w, h)), "mark", "pe", "pe"] + handshake(6) + [
+        "in 6 " + hx(m_scale(2)), "pe", "laccept r", "bell", "pe", "peerclose 6", "pe", "laccept a", "shutdown", "laccept a", "pe", "cleanup", "end"]
+    R["listen"] = L
     return R
 
 
@@ -182,6 +181,7 @@ def rand_case(rng, idx, malformed=False):
     xv, ft = (rng.random() < 0.5), (rng.random() < 0.4)
     L = ["case %d %s" % (idx, "malformed" if malformed else "random"), cfg(w, h, au, int(al), int(ne), int(dd), int(xv), int(ft))]
     nconn = 0
+    dims = {}         # k -> size of the (scaled) framebuffer the client sees, as far as the generator knows
     stage = {}        # k -> next handshake step
     minor = {}
     zl = {}
@@ -191,7 +191,13 @@ def rand_case(rng, idx, malformed=False):
     def normal_msg(k):
         r = rng.random()
         if r < 0.22:
-            return m_fur(rng.randint(0, 1), w, h)
+            d = dims.get(k, (w, h))
+            return m_fur(rng.randint(0, 1), d[0], d[1])
+        if r < 0.30:
+            f = rng.choice([1, 2, 2, 3, 4, 0, 9, 200])
+            if f and w // f and h // f:
+                dims[k] = (w // f, h // f)
+            return m_scale(f, palm=rng.random() < 0.4)
         if r < 0.36:
             encs = [rng.choice([ENC_RAW, ENC_ZLIB if w * h * 4 < 30000 else ENC_RAW, ENC_COPY, ENC_XVP]) for _ in range(rng.randint(0, 4))]
             return m_setenc(encs)
@@ -215,7 +221,9 @@ def rand_case(rng, idx, malformed=False):
             pre = ""
             if malformed and rng.random() < 0.3:
                 pre = " " + rng.choice(["closed", hx(b"RFB 003.008\n"), hx(b"XXXXYY"), hx(b"RFB "), hx(b"\x01\x02\x03\x04")])
-            L.append("accept %s%s" % (rng.choice("aaaahr"), pre))
+            L.append("%s %s%s" % ("laccept" if rng.random() < 0.3 else "accept", rng.choice("aaaahr"), pre))
+            if L[-1].startswith("laccept"):
+                L.append("pe")
             stage[nconn] = 0; minor[nconn] = rng.choice([8, 8, 8, 7, 3, 889, 5, 9])
             nconn += 1
             continue
@@ -299,6 +307,12 @@ def directed_cases(start):
     add("refuse-after-close", [cfg(), "accept h", "appclose 0", "refuse 0"])
     add("hold-peerclose", [cfg(), "accept h", "peerclose 0", "pe", "pe", "start 0", "pe"])
     add("xvp-in-setenc-fail", [cfg(xvp=1), "fault 13 r", "accept a"] + hs(0) + ["in 0 " + hx(m_setenc([ENC_XVP, ENC_RAW, ENC_ZLIB])), "pe"])
+    add("scaled-gone", [cfg(), "accept a"] + hs(0) + ["accept a"] + hs(1) + ["in 1 " + hx(m_scale(2)), "pe", "peerclose 1", "pe", "pe"])
+    add("scaled-palm-refuse", [cfg(), "accept a"] + hs(0) + ["in 0 " + hx(m_scale(2, palm=True)), "pe", "accept h", "refuse 1", "appclose 0", "pe"])
+    add("scaled-shared-copy", [cfg(), "accept a"] + hs(0) + ["accept a"] + hs(1) + ["accept a"] + hs(2) + [
+        "in 0 " + hx(m_scale(2)), "in 1 " + hx(m_scale(2)), "in 2 " + hx(m_scale(4)), "pe", "appclose 1", "pe", "in 0 " + hx(m_scale(4)), "pe", "cleanup"])
+    add("listen-refuse", [cfg(), "laccept r", "pe", "laccept r", "laccept a", "pe", "pe"])
+    add("listen-versionfail", [cfg(), "fault 1 r", "laccept a", "pe", "laccept a closed", "pe"])
     add("maxfd", [cfg(), "accept a", "accept a", "accept a", "appclose 2", "appclose 0", "appclose 1", "pe"])
     add("ptr-owner-gone", [cfg(), "accept a"] + hs(0) + ["accept a"] + hs(1) + ["in 0 " + hx(m_ptr(1, 1, 1)), "pe",
         "in 1 " + hx(m_ptr(1, 2, 2)), "pe", "peerclose 0", "pe", "in 1 " + hx(m_ptr(1, 2, 2)), "pe"])
@@ -355,6 +369,8 @@ def parse_obs(line):
             mm = re.match(r"^(n|g|x|w|fd)(\d+)$", t)
             if mm:
                 c[mm.group(1)] = int(mm.group(2))
+            elif t.startswith("z"):
+                c["z"] = t[1:]
         d["conns"][k] = c
     return d
 
@@ -433,10 +449,25 @@ def oracle_case(script, obs_lines, extra, ref_rx0=None):
             if o["op"] == "pe" and c["kind"] == "live" and not c["open"]:
                 fails.append(("connection %d closed but not reaped by rfbProcessEvents (after '%s')" % (k, opline), {"defect": "not_reaped"}))
         if o.get("ref") not in (None, "-"):
-            nlive = sum(1 for c in o["conns"].values() if c["kind"] == "live")
-            if int(o["ref"]) != nlive:
-                fails.append(("scaledScreenRefCount of the screen is %s with %d client records alive (after '%s')" % (o["ref"], nlive, opline),
-                              {"defect": "scaled_refcount"}))
+            # every screen of the chain (the unscaled one and each scaled copy) is referenced by exactly
+            # the live client records that currently use it
+            users = {}
+            for c in o["conns"].values():
+                if c["kind"] == "live":
+                    users[c.get("z", "-")] = users.get(c.get("z", "-"), 0) + 1
+            chain = {"-": int(o["ref"])}
+            dup = False
+            for e in (o.get("sc", "[]")[1:-1].split(";") if o.get("sc", "[]") != "[]" else []):
+                dims, r = e.split(":")
+                dup = dup or dims in chain
+                chain[dims] = int(r)
+            if dup:
+                fails.append(("two scaled screens of the same size in the chain (after '%s')" % opline, {"defect": "scaled_refcount"}))
+            for dims in set(chain) | set(users):
+                if chain.get(dims) != users.get(dims, 0):
+                    fails.append(("scaledScreenRefCount of the %s screen is %s with %d client records using it (after '%s')" %
+                                  ("unscaled" if dims == "-" else dims, chain.get(dims), users.get(dims, 0), opline), {"defect": "scaled_refcount"}))
+                    break
         # teardown of one connection leaves every other record alone
         p0 = opline.split()
         if prev is not None and p0[0] in ("appclose", "refuse") and len(p0) > 1:
@@ -469,6 +500,9 @@ def oracle_case(script, obs_lines, extra, ref_rx0=None):
     if fin and int(fin[-1]["fin"].get("filefds", 0)) > 0:
         fails.append(("%s file descriptor(s) opened for a file transfer still open after the connection and the screen are gone"
                       % fin[-1]["fin"]["filefds"], {"defect": "filetransfer_fd_leak"}))
+    if fin and int(fin[-1]["fin"].get("appfds_lost", 0)) > 0:
+        fails.append(("%s descriptor(s) the application opened inside clientGoneHook (re-using the number of the closed socket) were "
+                      "closed behind its back" % fin[-1]["fin"]["appfds_lost"], {"defect": "close_count"}))
     if fin and int(fin[-1]["fin"].get("busy", 0)) > 0:
         fails.append(("a locked mutex was destroyed", {"defect": "mutex_busy"}))
     def mask(hexs):
@@ -570,7 +604,6 @@ def parse_stream(b, script):
 # ---------------------------------------------------------------- the check
 def build(ctx):
     cexe = vlib.build_harness("vdrv_life", ["vdrv_life.c"], wraps=WRAPS)
-    probe(cexe)
     proof_ok = vlib.prove(ctx, PROP_FILE, ["Extract/Extract_C12.vo"])
     sync_extraction()
     mexe = vlib.build_ocaml("C12", "driver_C12.ml", "Extract/Extract_C12.vo")
@@ -587,17 +620,6 @@ def sync_extraction():
         os.makedirs(dst, exist_ok=True)
         for f in ("model.ml", "model.mli"):
             shutil.copy(os.path.join(src, f), os.path.join(dst, f))
-
-
-def with_flags(lines):
-    """stored scripts carry the 8 configuration fields only; append the current switches"""
-    out = []
-    for l in lines:
-        p = l.split()
-        if p and p[0] == "config":
-            l = " ".join(p[:9] + [str(x) for x in FIX_FLAGS])
-        out.append(l)
-    return out
 
 
 def io_count(mexe, ops):
@@ -624,7 +646,7 @@ def gen_cases(ctx, mexe):
             lines = [l for l in open(os.path.join(cdir, fn)).read().split("\n") if l.strip() and not l.startswith("#")]
             if lines and not lines[0].startswith("case "):
                 lines = ["case 0 corpus:%s" % fn] + lines
-            add(with_flags(lines))
+            add(lines)
     for c in directed_cases(0):
         add(c)
     refs = ref_sessions()
@@ -699,8 +721,7 @@ def check(ctx):
         for (msg, feat) in fails:
             oracle_fail.append((idx, msg, feat))
     ctx.coverage.update(
-        evaluations=nops, distinct_nontrivial=len(distinct), known_defect_switches=dict(zip(
-            ("fix1_writeexact_unlock", "fix2_filetransfer_fd", "fix3_iterator_with_closed", "fix4_cuttext_utf8_unlock"), FIX_FLAGS)),
+        evaluations=nops, distinct_nontrivial=len(distinct),
         rule="lifecycle scripts (config/accept/in/peerclose/pe/appclose/start/refuse/mark/bell/cuttext/fault/shutdown/cleanup) run on the "
              "extracted Coq model and on libvncserver; after every op the observation (I/O call count, hook and close events, per "
              "connection: state, sock, hold, new/gone/close/write counts, list and fd_set membership, regions, encoding, resources, "
@@ -798,7 +819,6 @@ def replay(ctx, path):
     if lines[-1] != "end":
         lines.append("end")
     cexe, mexe, proof_ok = build(ctx)
-    lines = with_flags(lines)
     (co,), _, _ = run_chunks(cexe, [lines], env=ASAN_ENV, workers=1)
     (mo,), _, _ = run_chunks(mexe, [lines], workers=1)
     il = [l for l in co[1] if not l.startswith("#")]
